@@ -154,6 +154,17 @@ class Hist:
 			elif damage == 'truncated':
 				data = gdb.read_bytes(); gdb.write_bytes(data[:max(len(data) // 2, 4096)])
 			ctx.count(f'genome_file_damage:{damage}')
+		# a genome file of realistic size (the released database is tens of megabytes; SQLite's default page cache is 2000 KiB): an
+		# unrelated table with a few megabytes of rows makes the synthetic file cross that size
+		self.large = (not damage) and rng.random() < 0.4
+		if self.large:
+			import sqlite3
+			gdb = next(p for p in self.db.iterdir() if p.suffix in ('.gdb', '.db'))
+			con = sqlite3.connect(str(gdb))
+			con.execute('CREATE TABLE IF NOT EXISTS verif_padding (id INTEGER PRIMARY KEY, body BLOB)')
+			con.executemany('INSERT INTO verif_padding (body) VALUES (?)', [(bytes(rng.randrange(256) for _ in range(64)) * 64,) for _ in range(700)])
+			con.commit(); con.close()
+			ctx.count('genome_file_larger_than_2000KiB' if gdb.stat().st_size > 2000 * 1024 else 'genome_file_padding_too_small')
 		# the genome file in either SQLite journal mode: write-ahead logging is a persistent property of the file (header bytes 18/19)
 		self.journal = journal or rng.choice(['delete', 'delete', 'wal'])
 		if self.journal == 'wal' and damage in (None, 'index-dropped'):
@@ -563,7 +574,7 @@ def run_shard(sh, ctx):
 def finalize(merged, tier, seed, inconclusive):
 	c = merged['counters']
 	need = ['histories', 'step:query_files', 'step:query_sigs', 'step:dist_usedb', 'step:info', 'step:fail', 'step:library', 'step:orm', 'step:cli_session', 'step:explicit_writable_maker', 'step:default_session_direct', 'step:taxonomy_reads', 'failing_commands', 'commit_refused', 'orm_edit_steps',
-	        'sql:SELECT', 'straced_commands', 'syscall:open:O_RDONLY', 'genome_file_journal_mode:wal', 'genome_file_journal_mode:delete', 'genome_file_damage:table-dropped', 'genome_file_damage:zero-length', 'genome_file_damage:foreign-sqlite']
+	        'sql:SELECT', 'straced_commands', 'syscall:open:O_RDONLY', 'genome_file_journal_mode:wal', 'genome_file_journal_mode:delete', 'genome_file_larger_than_2000KiB', 'genome_file_damage:table-dropped', 'genome_file_damage:zero-length', 'genome_file_damage:foreign-sqlite']
 	for n in need:
 		if c.get(n, 0) == 0:
 			inconclusive.append(f'class never observed: {n}')
